@@ -82,6 +82,13 @@ int main(int argc, char **argv) {
   double scale = atof(arg_of(argc, argv, "--scale", "1").c_str());
   int shrink_budget = atoi(arg_of(argc, argv, "--shrink-budget", "1500").c_str());
   double shrink_seconds = atof(arg_of(argc, argv, "--shrink-seconds", "60").c_str());
+  // wall budget of this process (0 = none) and number of rounds each sub-property's count is split into: a round is a complete
+  // rapidcheck run over the whole size range; rounds after the first are skipped once the sub-property's share of the budget is
+  // used up.  The budget only truncates the exploration (reported as rounds_done / rounds), it never decides a verdict.
+  double budget = atof(arg_of(argc, argv, "--budget", "0").c_str());
+  int rounds = std::max(1, atoi(arg_of(argc, argv, "--rounds", "1").c_str()));
+  long total_n = 0;
+  for (auto &sub : prop.subs) { if (!only.empty() && only != sub.name) continue; total_n += (long)((tier == "thorough" ? sub.thorough_n : sub.quick_n) * scale); }
   mkdir(replay_dir.c_str(), 0755);
   if (!emit_dir.empty()) mkdir(emit_dir.c_str(), 0755);
 
@@ -89,6 +96,7 @@ int main(int argc, char **argv) {
                     std::to_string(seed) + ",\"proc\":" + std::to_string(proc) + ",\"subs\":[";
   bool any_fail = false;
   bool firstsub = true;
+  int truncated_subs = 0;
   auto t0 = std::chrono::steady_clock::now();
   for (auto &sub : prop.subs) {
     if (!only.empty() && only != sub.name) continue;
@@ -97,19 +105,27 @@ int main(int argc, char **argv) {
     n = (int)(n * scale);
     if (!emit_dir.empty()) n = emit_count;
     if (n <= 0) continue;
+    int nrounds = (!emit_dir.empty() || n < 4 * rounds) ? 1 : rounds;
+    int per_round = (n + nrounds - 1) / nrounds, rounds_done = 0;
+    double sub_budget = budget > 0 && total_n > 0 ? budget * (double)n / (double)total_n : 0;
+    auto sub_t0 = std::chrono::steady_clock::now();
+    bool ok = true;
+    bool failing = false;        // a failing case has been seen: we are shrinking
+    for (int round = 0; round < nrounds && !failing && ok; round++) {
+    if (round > 0 && sub_budget > 0 && std::chrono::duration<double>(std::chrono::steady_clock::now() - sub_t0).count() > sub_budget) break;
+    rounds_done++;
     rc::detail::TestParams params;
-    // one independent stream per (seed, process, sub-property)
+    // one independent stream per (seed, process, sub-property, round)
     uint64_t h = seed * 1000003ULL + (uint64_t)proc * 7919ULL;
     for (const char *q = sub.name; *q; q++) h = h * 131 + (unsigned char)*q;
-    params.seed = h;
-    params.maxSuccess = n;
+    params.seed = h + (uint64_t)round * 0x9E3779B97F4A7C15ULL;
+    params.maxSuccess = per_round;
     params.maxSize = sub.max_size;
     params.maxDiscardRatio = 10;
     rc::detail::TestMetadata meta;
     meta.id = std::string(prop.id) + "/" + sub.name;
     meta.description = meta.id;
 
-    bool failing = false;        // a failing case has been seen: we are shrinking
     int shrink_evals = 0;
     auto fail_t0 = std::chrono::steady_clock::now();
     Case lastfail; std::string lastmsg, failclass;
@@ -148,7 +164,7 @@ int main(int argc, char **argv) {
       }
     };
     auto result = rc::detail::checkTestable(body, meta, params);
-    bool ok = result.template is<rc::detail::SuccessResult>();
+    ok = result.template is<rc::detail::SuccessResult>();
     if (!ok && !failing) {
       // gave up / generation error: a harness defect, never a library violation
       std::ostringstream os; rc::detail::printResultMessage(result, os);
@@ -165,14 +181,16 @@ int main(int argc, char **argv) {
       printf("FAIL %s/%s replay=%s msg=%s\n", prop.id, sub.name, path.c_str(), lastmsg.c_str());
       for (auto &oc : other_classes) fprintf(stderr, "[%s/%s] another failure class was met while shrinking: %s\n", prop.id, sub.name, oc.c_str());
     }
+    }   // rounds
     if (!firstsub) out += ",";
     firstsub = false;
     out += st.json(sub.name);
-    fprintf(stderr, "[%s/%s] evals=%ld nontrivial=%zu known=%ld %s\n", prop.id, sub.name, st.evaluations,
-            st.nt_hashes.size(), st.excluded_known, ok ? "ok" : "FAILED");
+    fprintf(stderr, "[%s/%s] evals=%ld nontrivial=%zu known=%ld rounds=%d/%d %s\n", prop.id, sub.name, st.evaluations,
+            st.nt_hashes.size(), st.excluded_known, rounds_done, nrounds, ok ? "ok" : "FAILED");
+    if (rounds_done < nrounds && ok) truncated_subs++;
   }
   double wall = std::chrono::duration<double>(std::chrono::steady_clock::now() - t0).count();
-  out += "],\"wall_s\":" + std::to_string(wall) + "}\n";
+  out += "],\"truncated_subs\":" + std::to_string(truncated_subs) + ",\"wall_s\":" + std::to_string(wall) + "}\n";
   if (!stats_path.empty()) write_file(stats_path, out);
   return any_fail ? 1 : 0;
 }
